@@ -109,6 +109,7 @@ type IfaceV struct {
 type ClosureV struct {
 	Fn   *ssa.Function
 	Bind []Val
+	Pos  token.Pos
 }
 
 type FuncV struct{ Fn *ssa.Function }
